@@ -699,13 +699,60 @@ def gen_callseq_case(rng, nper_max=8):
         calls.append(call)
     if not any(c["kind"] == "filter" for c in calls[1:]):
         calls.append({"kind": "filter", "deviation": not calls[0]["deviation"], "rescale": False, "sel": None})
+    # between the calls the object's state may change WITHOUT a new solve(): stds of transition and/or measurement shocks are
+    # re-assigned or rescaled (they do not enter the first-order solution), the object is replaced by a copy of itself
+    std_choices = [0.2, 0.5, 1.0, 1.3, 2.0]
+    def mutation():
+        kind = rng.weighted([("assign_stds", 4), ("rescale_stds", 3), ("copy", 2)])
+        if kind == "assign_stds":
+            which = rng.choice(["e", "w", "both"])
+            return {"kind": kind,
+                    "std_e": [rng.choice(std_choices) for _ in mc["std_e"]] if which in ("e", "both") else None,
+                    "std_w": [rng.choice([0.1, 0.3, 0.7, 1.0]) for _ in mc["std_w"]] if which in ("w", "both") else None}
+        if kind == "rescale_stds":
+            return {"kind": kind, "factor": rng.choice([0.5, 1.5, 2.0, 3.0])}
+        return {"kind": kind}
+    out = []
+    for i, call in enumerate(calls):
+        out.append(call)
+        if i < len(calls) - 1 and rng.chance(0.5):
+            out.append(mutation())
+            if rng.chance(0.25):
+                out.append(mutation())
+    calls = out
+    if rng.chance(0.6) and not any(c["kind"] in ("assign_stds", "rescale_stds") for c in calls):
+        calls += [mutation() if rng.chance(0.5) else {"kind": "rescale_stds", "factor": 2.0},
+                  {"kind": "filter", "deviation": False, "rescale": False, "sel": None}]
+    if calls[-1]["kind"] in ("assign_stds", "rescale_stds", "copy"):
+        calls.append({"kind": "filter", "deviation": bool(rng.chance(0.3)), "rescale": False, "sel": None})
     return {"mc": mc, "data": data, "calls": calls}
 
 
-def callseq_subcase(case, call):
-    """the e2e case of one call of a sequence (sub-spans are expressed as a consecutive `sel`)"""
+def apply_mutation(m, mc_now, call):
+    """apply a state-changing op to the model object and to the oracle's parameter record; returns the (possibly new) object"""
+    if call["kind"] == "assign_stds":
+        vals = {}
+        if call.get("std_e") is not None:
+            mc_now["std_e"] = [float(v) for v in call["std_e"]]
+            vals.update({f"std_e{j}": v for j, v in enumerate(mc_now["std_e"])})
+        if call.get("std_w") is not None:
+            mc_now["std_w"] = [float(v) for v in call["std_w"]]
+            vals.update({f"std_w{j}": v for j, v in enumerate(mc_now["std_w"])})
+        if vals:
+            m.assign(**vals)
+    elif call["kind"] == "rescale_stds":
+        m.rescale_stds(call["factor"])
+        mc_now["std_e"] = [float(v) * call["factor"] for v in mc_now["std_e"]]
+        mc_now["std_w"] = [float(v) * call["factor"] for v in mc_now["std_w"]]
+    elif call["kind"] == "copy":
+        m = m.copy()
+    return m
+
+
+def callseq_subcase(case, call, mc_now=None):
+    """the e2e case of one call of a sequence (sub-spans are expressed as a consecutive `sel`), with the parameters in force"""
     data = case["data"]
-    c = {"mc": case["mc"], "data": data, "deviation": call["deviation"], "rescale": call["rescale"], "sel": call.get("sel"),
+    c = {"mc": mc_now or case["mc"], "data": data, "deviation": call["deviation"], "rescale": call["rescale"], "sel": call.get("sel"),
          "sel_as_span": call.get("sel_as_span", True)}
     if call.get("sub"):
         a, b = call["sub"]
@@ -991,6 +1038,12 @@ def gen_sequence_case(rng, nper_max=8):
         ops = [[op, h] for (op, _), h in zip(ops, hs)]            # increasing horizons: cached expansions get extended
     for _, h in ops:
         if not any(ae[h]): ae[h][0] = 0.5
+    # state changes of the object between the ops, without a new solve(): stds re-assigned / rescaled, object replaced by its copy
+    if len(ops) > 1 and rng.chance(0.5):
+        mut = rng.choice([["rescale_stds", rng.choice([0.5, 2.0, 3.0])], ["copy", None],
+                          ["assign_stds", {"kind": "assign_stds", "std_e": [rng.choice([0.2, 0.5, 1.0, 2.0]) for _ in mc["std_e"]],
+                                           "std_w": [rng.choice([0.1, 0.3, 0.7]) for _ in mc["std_w"]]}]])
+        ops.insert(rng.randint(1, len(ops) - 1), mut)
     return {"mc": mc, "data": data, "deviation": False, "rescale": False, "u_mean": ue, "ant": ae, "w_mean": we, "ops": ops}
 
 
@@ -1002,7 +1055,12 @@ def run_sequence(case):
     start, span = e2e_span(data["nper"])
     nper = data["nper"]
     results = []
+    mc_now = json_copy(mc)
     for op, h in case["ops"]:
+        if op in ("assign_stds", "rescale_stds", "copy"):
+            call = h if op == "assign_stds" else ({"kind": op, "factor": h} if op == "rescale_stds" else {"kind": op})
+            m = apply_mutation(m, mc_now, call)
+            continue
         ant = [list(r) if t <= h else [0.0] * len(r) for t, r in enumerate(case["ant"])]
         db = databox_of(mc, data, start)
         for j in range(len(mc["std_e"])):
@@ -1019,4 +1077,5 @@ def run_sequence(case):
         else:
             out, info = m.kalman_filter(db, span, return_info=True, shocks_from_data=True)
             results.append((db, span, out, info, ant))
+    case["_mc_now"] = mc_now
     return m, results
